@@ -4,14 +4,17 @@ import (
 	"fmt"
 	"math/rand"
 	"os"
-	"sync"
-	"time"
 	"path/filepath"
 	"sort"
 	"strings"
+	"sync"
+	"time"
+
+	pbsubstreams "github.com/streamingfast/substreams/pb/sf/substreams/v1"
 
 	"verif/harness/fw"
 	"verif/harness/gen"
+	"verif/harness/native"
 	"verif/harness/sim"
 )
 
@@ -40,6 +43,7 @@ func init() {
 			"exhaustive part: for G generated (package, R) pairs with |U| <= N (quick G=2,N=10; thorough G=4,N=13) EVERY subset S of U is restored into a fresh directory (a quarter of them with truncated '<file>.<8 letters>.tmp' siblings of missing files added) and R is run again (1..4 workers, PRNG completion order); " +
 			"sampled part: PRNG subsets of larger universes, a shifted request R', and real interruption states (request cancelled after the k-th data message, then re-run). Monitors per run: request completes; stream == sequential reference (C01/C04 clauses); every file left behind decodes to the reference content (cache auditor); no '.tmp' name is ever listed as a snapshot. " +
 			"concurrent part (mode race; quick 10, thorough 40 cases): 2..3 production requests run CONCURRENTLY on one state directory inside the -race binary, twice; completed requests must stream the reference, every file left behind must decode to the reference content, and the race detector watches the squasher's asynchronous snapshot writes against the next merge. " +
+			"mapper-stream part (quick 16, thorough 600): an output module that reads only 2..3 sparse maps (each skips its empty outputs, on different blocks); after a clean run every file of the output module is removed and the request runs again: the segment jobs read no block source, they replay the union of the blocks covered by the maps' cached files; stream and rebuilt files equal the reference. " +
 			"live part (last plain cases: quick 4, thorough 200): a production request streaming ~130 blocks + 4 segments of a live chain beyond its hand-off while the tier1's live back-filler has tier2 (real gRPC) compute the segments that became final in the background: same stream and audit monitors on the files those jobs leave. " +
 			"non-trivial = subset that is neither empty nor full and for which at least one tier2 job ran; distinct by (graph, subset bitmask)",
 		Assumptions: []string{
@@ -56,7 +60,7 @@ func init() {
 				}
 				return 10
 			}
-			return d.graphs*((1<<d.maxN)/c07Chunk) + d.sampled + c07LiveCases(tier)
+			return d.graphs*((1<<d.maxN)/c07Chunk) + d.sampled + c07LiveCases(tier) + c07MapperStreamCases(tier)
 		},
 		Modes: func(tier string) []string {
 			return []string{"plain", "race"}
@@ -222,12 +226,23 @@ func c07LiveCases(tier string) int {
 	return 4
 }
 
+func c07MapperStreamCases(tier string) int {
+	if tier == "thorough" {
+		return 600
+	}
+	return 16
+}
+
 func runC07(c *fw.Case) {
 	if c.Mode == "race" {
 		runC07Race(c)
 		return
 	}
 	d := c07Domain(c.Tier)
+	if c.Index >= d.graphs*((1<<d.maxN)/c07Chunk)+d.sampled+c07LiveCases(c.Tier) {
+		runC07MapperStream(c)
+		return
+	}
 	if c.Index >= d.graphs*((1<<d.maxN)/c07Chunk)+d.sampled {
 		// files left behind by the live back-filler's background jobs while a request streams the live part of the chain
 		runLiveTail(c, "C07")
@@ -493,7 +508,6 @@ func runC07Race(c *fw.Case) {
 	}
 }
 
-
 // missingOutputFiles lists the output module's cache files (cached outputs, or index files for a block-index output
 // module) that a completed production request should have written and that are absent.
 func missingOutputFiles(pl *sim.Planned, s *scen, out string, cl *sim.Cluster) (missing []string) {
@@ -525,4 +539,104 @@ func missingOutputFiles(pl *sim.Planned, s *scen, out string, cl *sim.Cluster) (
 		}
 	}
 	return missing
+}
+
+// runC07MapperStream: the tier2 path that does NOT read the block source. The output module reads only sparse maps (each
+// skips its empty outputs, on different blocks); after a clean run every file of the output module is removed, the maps'
+// cached outputs stay: the segment jobs must replay the union of the blocks the maps' files cover and rebuild exactly the
+// reference files and stream.
+func runC07MapperStream(c *fw.Case) {
+	s := newScen(c, gen.PkgOpts{MaxMods: 3})
+	defer s.close()
+	r := c.R
+	pkg := &gen.Pkg{Progs: map[string]*native.Program{}, Kind: map[string]string{}, Init: map[string]uint64{}}
+	src := func() *pbsubstreams.Module_Input {
+		return &pbsubstreams.Module_Input{Input: &pbsubstreams.Module_Input_Source_{Source: &pbsubstreams.Module_Input_Source{Type: native.BlockType}}}
+	}
+	var mods []*pbsubstreams.Module
+	var outInputs []*pbsubstreams.Module_Input
+	var outSpecs []native.InSpec
+	n := 2 + r.Intn(2)
+	for i := 0; i < n; i++ {
+		name := fmt.Sprintf("sparse%d", i)
+		mods = append(mods, &pbsubstreams.Module{Name: name, BinaryEntrypoint: name, Inputs: []*pbsubstreams.Module_Input{src()},
+			Kind:   &pbsubstreams.Module_KindMap_{KindMap: &pbsubstreams.Module_KindMap{OutputType: "proto:verif.Lines"}},
+			Output: &pbsubstreams.Module_Output{Type: "proto:verif.Lines"}})
+		pkg.Progs[name] = &native.Program{Kind: "map", Seed: uint64(1 + r.Intn(1000)), Inputs: []native.InSpec{{Kind: "source"}}, TagMask: uint8(1 << uint(r.Intn(4))), KeyMask: uint8(1 + r.Intn(63)), Mul: 1, FailAt: -1, DelTag: -1, SetTag: -1, SkipEmpty: true}
+		pkg.Kind[name] = "map"
+		pkg.Names = append(pkg.Names, name)
+		outInputs = append(outInputs, &pbsubstreams.Module_Input{Input: &pbsubstreams.Module_Input_Map_{Map: &pbsubstreams.Module_Input_Map{ModuleName: name}}})
+		outSpecs = append(outSpecs, native.InSpec{Kind: "map", Name: name})
+	}
+	mods = append(mods, &pbsubstreams.Module{Name: "out", BinaryEntrypoint: "out", Inputs: outInputs,
+		Kind:   &pbsubstreams.Module_KindMap_{KindMap: &pbsubstreams.Module_KindMap{OutputType: "proto:verif.Lines"}},
+		Output: &pbsubstreams.Module_Output{Type: "proto:verif.Lines"}})
+	pkg.Progs["out"] = &native.Program{Kind: "map", Seed: 7, Inputs: outSpecs, TagMask: 0xF, KeyMask: 0x3F, Mul: 1, FailAt: -1, DelTag: -1, SetTag: -1, SkipEmpty: r.Intn(2) == 0}
+	pkg.Kind["out"] = "map"
+	pkg.Names = append(pkg.Names, "out")
+	pkg.Maps = []string{"out"}
+	pkg.Modules = &pbsubstreams.Modules{Modules: mods}
+	pkg.Rebuild()
+	s.pkg = pkg
+	s.refs = map[string]*sim.Ref{}
+	ref := s.ref("out")
+	if ref == nil {
+		return
+	}
+	start := uint64(r.Intn(int(s.seg)))
+	stop := start + 2*s.seg + uint64(r.Intn(int(2*s.seg)))
+	if stop > s.H {
+		stop = s.H
+	}
+	req := sim.RequestSpec{Modules: pkg.Modules, Output: "out", Prod: true, Start: int64(start), Stop: stop, Final: s.cl.Head, Workers: 1 + r.Intn(3), OrderSeed: 1 + r.Int63n(1<<40)}
+	if start == 0 {
+		req.Start = 1
+	}
+	res := s.cl.Run(req)
+	if res.Err != nil || res.Stuck {
+		c.Violation("C07/mapper-stream/clean-run-failed", fmt.Sprintf("clean run failed: stuck=%v err=%v", res.Stuck, res.Err), s.witness(map[string]any{"request": req}))
+		return
+	}
+	pl, err := s.cl.PlanFor(req)
+	if err != nil {
+		return
+	}
+	outHash := pl.Graph.ModuleHashes().Get("out")
+	root := filepath.Join(s.cl.Dir, s.cl.Tag)
+	var removed, kept []string
+	sizes := map[string]int{}
+	for _, f := range s.cl.ListCache() {
+		if f.Hash == outHash {
+			os.Remove(filepath.Join(root, f.Rel))
+			removed = append(removed, f.Rel)
+		} else if f.Sub == "outputs" {
+			kept = append(kept, f.Rel)
+			if fi, err := os.Stat(filepath.Join(root, f.Rel)); err == nil {
+				sizes[f.Rel] = int(fi.Size())
+			}
+		}
+	}
+	c.Count("mapper_stream_scenarios", 1)
+	if len(removed) == 0 || len(kept) < 2 {
+		c.Count("mapper_stream_scenarios_without_enough_files", 1)
+		return
+	}
+	req.OrderSeed = 1 + r.Int63n(1<<40)
+	res2 := s.cl.Run(req)
+	extra := map[string]any{"request": req, "kept_files_of_the_sparse_maps": kept, "removed_files_of_the_output_module": removed, "jobs": res2.Jobs}
+	if res2.Stuck || res2.Err != nil {
+		c.Violation("C07/mapper-stream/request-failed", fmt.Sprintf("re-run on the maps' cached outputs failed: stuck=%v err=%v", res2.Stuck, res2.Err), s.witness(extra))
+		return
+	}
+	fs, facts := sim.CheckStream(res2, ref, false)
+	s.report("C07/mapper-stream", fs, extra)
+	af, afacts := s.cl.AuditCache(ref, s.pkg)
+	s.report("C07/mapper-stream", af, extra)
+	c.Count("files_audited", int64(afacts.Output))
+	if c.Violated() {
+		return
+	}
+	if len(res2.Jobs) > 0 && facts.NonEmpty > 0 {
+		c.Nontrivial(fmt.Sprintf("mapper-stream|%v|%+v", pkg.Describe(), req))
+	}
 }
